@@ -121,3 +121,24 @@ func init() {
 		assumptions: std,
 	}
 }
+
+func init() {
+	std := []string{"go/ssa and go/types model the program faithfully; callees are resolved by type information"}
+	props["C09"] = &propDef{
+		id: "C09", title: "Feedback decoding attributes each acknowledgement to the right sent packet",
+		explanation: "Decides the structural clauses the statement singles out: G1 — in every function that walks []*rtcp.RecvDelta with a cursor, no instruction that advances the cursor is control-dependent (post-dominator based, transitively) on a condition derived from a lookup in long-lived state (a comma-ok map lookup on a field, or a (T,bool) lookup predicate such as feedbackHistory.get): the arrival time decoded for a packet is independent of whether neighbouring packets are still in the history; " +
+			"G2 — in every symbol loop, the counter that feeds the attribution key (feedbackHistoryKey.sequenceNumber / acknowledgement.sequenceNumber) is advanced exactly once on every path through the loop body (path counting), or is the range index; F1 — every index into RecvDeltas / packet-derived slices is guarded; E2 — the flag that lets history.delete release the TWCC mapping is actually set.",
+		notDecided:  "arrival-time arithmetic (reference time ×64 ms, 250 µs deltas, RFC 8888 offsets), LRU contents of the sent-packet history, that each sent packet is reported at most once and in send order (value properties of history.buildReport), zero-valued acknowledgements emitted for unknown packets",
+		sels:        []sel{s("G1"), s("G2"), s("F1", `rtpfb\.convertTWCC|FeedbackAdapter|rtpfb\.convert`), s("E2", `rtpfb\.history`), s("E1", `rtpfb\.history`)},
+		assumptions: std,
+	}
+	props["C16"] = &propDef{
+		id: "C16", title: "GCC target bitrate stays finite, within bounds, and consistent",
+		explanation: "Decides: H1 — every store to rateController.target and to SendSideBWE.latestBitrate outside construction/option closures stores the result of a clamp (clampInt or max/min nest) whose bounds are the configured minBitrate/maxBitrate fields of the same object, so the published int is within bounds by construction whatever NaN/Inf the float stages produced; " +
+			"H2 — in the publishing function every pacer.SetTargetBitrate call and every invocation of the change callback receives the stored value itself (same SSA value or a reload of the field), and GetTargetBitrate returns that field (under SendSideBWE.lock by C1); " +
+			"H3 — every call path to a plain send on a channel that a Close method closes passes a closed test on its not-closed branch while a lock is read-held that the closing site holds exclusively (no send on a closed pipe, documented closed error otherwise); C5 — that wait-under-lock is deadlock-free; C1/C2 rows of the gcc types.",
+		notDecided:  "anything about the floating-point pipeline itself (rate = bits/dt with dt = 0, 0/0 in increase) beyond the fact that the clamp absorbs it; that feedback never blocks for long (consumers are goroutines fed through unbuffered pipes)",
+		sels:        []sel{s("H1"), s("H2"), s("H3"), s("C5", `gcc\.`), s("C1", `pkg/gcc\.`), s("C2", `pkg/gcc\.`)},
+		assumptions: std,
+	}
+}
